@@ -404,6 +404,17 @@ func ruleTokenContracts(p *Prog, r *Report, rule string, floor int) {
 					bad = true
 				}
 			}
+			// SetReadOnly answers nil only once the write lock it took is parked with the persistent-error
+			// handler: acquired here, flagged compWriteLocking, never released. Letting go of it (for the
+			// handler to pick up later) hands it to a queued writer first, who commits in a read-only DB.
+			if name == "(*leveldb.DB).SetReadOnly" && returnIsSuccess(ret) && e.State.cnt["handler"] != 1 {
+				k := fmt.Sprintf("%s/nohandler", p.Pos(ret.Pos()))
+				if !seen[k] {
+					seen[k] = true
+					r.Fail(name, "exit-success-lock-not-parked", "SetReadOnly returns nil only with the write lock acquired and transferred to the persistent-error handler (compWriteLocking = true) in the same critical section", fmt.Sprintf("success return at %s is reached without the lock parked (wlock=%d, handler=%d): a writer queued on writeLockC can take it and commit after SetReadOnly", p.Pos(ret.Pos()), n, e.State.cnt["handler"]), p.Pos(ret.Pos()), nil)
+					bad = true
+				}
+			}
 			for _, other := range []string{"req", "ack", "wait"} {
 				if c := e.State.cnt[other]; c != 0 {
 					k := fmt.Sprintf("%s/%s/%d", p.Pos(ret.Pos()), other, c)
